@@ -403,13 +403,22 @@ def case_refgraph(rec, n, si, only=None):
                         if v < ci and not order[v].refs:
                             kind = 'backward-leaf'
                         rec.covered(f'neg:ref:{kind}')
-                        try:
-                            got = Cell.from_boc(bad)
-                        except Exception as e:
-                            rec.outcome(f'neg-raise:{exc_name(e)}')
-                            continue
-                        rec.violation(f'negative:ref:{kind}', f'{detail}: {kind} reference accepted, parser returned {len(got)} root(s) ({bad.hex()[:80]})', 'case_refgraph', args)
-                        rec.outcome(f'ACCEPTED-{kind}')
+                        # every entry point: the three classes' from_boc / one_from_boc and the parser object asked for each class
+                        from pytoniq_core.boc import Slice, Builder
+                        from pytoniq_core.boc.deserialize import Boc
+                        entries = [('Cell.from_boc', lambda: Cell.from_boc(bad)), ('Cell.one_from_boc', lambda: [Cell.one_from_boc(bad)]),
+                                   ('Slice.one_from_boc', lambda: [Slice.one_from_boc(bad)]), ('Builder.from_boc', lambda: Builder.from_boc(bad)),
+                                   ('Boc.deserialize()', lambda: Boc(bad).deserialize()), ('Boc.deserialize(Cell)', lambda: Boc(bad).deserialize(Cell)),
+                                   ('Boc.deserialize(Slice)', lambda: Boc(bad).deserialize(Slice))]
+                        for ename, thunk in entries:
+                            try:
+                                got = thunk()
+                            except Exception as e:
+                                rec.outcome(f'neg-raise:{exc_name(e)}')
+                                continue
+                            rec.violation(f'negative:ref:{kind}' + ('' if ename == 'Cell.from_boc' else f':{ename}'), f'{detail}: {kind} reference accepted by {ename}, which returned {len(got)} object(s) ({bad.hex()[:80]})', 'case_refgraph', args)
+                            rec.outcome(f'ACCEPTED-{kind}')
+                            break
 
 
 def shard_full_product(rec, part, parts):
